@@ -53,6 +53,10 @@ def step (_ : Unit) (ws : List String) : Unit × String :=
     match optNat n, optNat r, parsePeers rest with
     | some n, some r, some ps => ((), tagNats "ok" ((calcClosest ps n r).map (·.1)))
     | _, _, _ => ((), "bad-op")
+  | "replcand" :: r :: rest =>
+    match optNat r, parsePeers rest with
+    | some r, some ps => ((), tagNats "ok" ((replicateCandidates (sortByDist ps) r).map (·.1)))
+    | _, _ => ((), "bad-op")
   | "closegroup" :: c :: me :: rest =>
     match c.toNat?, me.toNat?, parsePeers rest with
     | some c, some me, some ps =>
